@@ -1075,6 +1075,40 @@ pub fn sweep_cases(r: &mut Rng, tier: Tier) -> Vec<Case08> {
                               key: KeyId::Hmac1, fmt: if k % 2 == 0 { Fmt::Compact } else { Fmt::Json }, want: Want::Draft, own_view: None, affected: vec![], withheld: 0 });
         }
     }
+    // two presented disclosures of ONE _sd list with the same claim name, in every order of the list and with others between them
+    {
+        let da = b64_json(&json!(["c2FsdC1kdXAtYQ", "street", "Real Street 1"]));
+        let db = b64_json(&json!(["c2FsdC1kdXAtYg", "street", "Forged Street 9"]));
+        let dx = b64_json(&json!(["c2FsdC1kdXAteA", "city", "K"]));
+        let dy = b64_json(&json!(["c2FsdC1kdXAteQ", "zip", "1"]));
+        let orders: Vec<Vec<&String>> = vec![vec![&da, &db], vec![&da, &dx, &db], vec![&db, &dx, &da], vec![&da, &dx, &dy, &db], vec![&dx, &da, &dy, &db], vec![&da, &db, &dx], vec![&dx, &dy, &da, &db]];
+        for (k, order) in orders.iter().enumerate() {
+            let sd: Vec<String> = order.iter().map(|d| hash(d)).collect();
+            for nested in [false, true] {
+                let payload = if nested { json!({"iss": "https://issuer.example", "exp": far, "_sd_alg": "sha-256", "address": {"_sd": sd.clone(), "country": "DE"}}) } else { json!({"iss": "https://issuer.example", "exp": far, "_sd_alg": "sha-256", "_sd": sd.clone()}) };
+                let all: Vec<String> = order.iter().map(|d| (*d).clone()).collect();
+                let mut rev = all.clone();
+                rev.reverse();
+                for (pname, presented) in [("in-list-order", all.clone()), ("reversed", rev)] {
+                    out.push(Case08 { class: format!("sweep.same_name_twice_in_one_list: order {} {} {}", k, if nested { "nested" } else { "top" }, pname), devs: vec![], claims: Value::Null, payload: payload.clone(), all: all.clone(), presented,
+                                      key: KeyId::Hmac1, fmt: if k % 2 == 0 { Fmt::Compact } else { Fmt::Json }, want: Want::Reject, own_view: None, affected: vec![], withheld: 0 });
+                }
+            }
+        }
+    }
+    // array placeholders with a further member before or after "..." (built as raw payload text would order them)
+    {
+        let d = b64_json(&json!(["c2FsdC1waC1leHRyYQ", "element"]));
+        let h = hash(&d);
+        for (k, (name, el)) in [("extra-after", json!({"...": h.clone(), "note": "x"})), ("extra-before", json!({"note": "x", "...": h.clone()})), ("extra-before-null", json!({"a": null, "...": h.clone()})),
+                                ("two-extras-around", json!({"a": 1, "...": h.clone(), "z": 2})), ("sd-before", json!({"_sd": [], "...": h.clone()})), ("empty-name-before", json!({"": 0, "...": h.clone()}))].into_iter().enumerate() {
+            let payload = json!({"iss": "https://issuer.example", "exp": far, "_sd_alg": "sha-256", "list": ["plain", el]});
+            for presented in [vec![d.clone()], vec![]] {
+                out.push(Case08 { class: format!("sweep.placeholder_with_further_members: {} {}", name, if presented.is_empty() { "withheld" } else { "presented" }), devs: vec![], claims: Value::Null, payload: payload.clone(), all: vec![d.clone()], presented,
+                                  key: KeyId::Hmac1, fmt: if k % 2 == 0 { Fmt::Compact } else { Fmt::Json }, want: Want::Reject, own_view: None, affected: vec![], withheld: 0 });
+            }
+        }
+    }
     // _sd_alg in spellings near the one supported name: anything but exactly "sha-256" (or absent) names an unsupported hash
     {
         let d = b64_json(&json!(["c2FsdC1hbGc", "given_name", "Erika"]));
